@@ -360,4 +360,124 @@ theorem mem_sortStrs (b : Str) (l : List Str) : b ∈ sortStrs l ↔ b ∈ l := 
   | nil => simp [sortStrs]
   | cons a r ih => simp [sortStrs, mem_insertSorted, ih]
 
+/-! ### `sorted()` is a function of the multiset -/
+
+theorem strLe_total (a b : Str) : strLe a b = true ∨ strLe b a = true := by
+  induction a generalizing b with
+  | nil => left; rfl
+  | cons x r ih =>
+    cases b with
+    | nil => right; rfl
+    | cons y w =>
+      simp only [strLe]
+      by_cases h1 : x.toNat < y.toNat
+      · simp [h1]
+      · by_cases h2 : y.toNat < x.toNat
+        · simp [h1, h2]
+        · simp only [h1, h2, if_false]; exact ih w
+
+theorem strLe_antisymm (a b : Str) (h1 : strLe a b = true) (h2 : strLe b a = true) : a = b := by
+  induction a generalizing b with
+  | nil => cases b with
+    | nil => rfl
+    | cons y w => simp [strLe] at h2
+  | cons x r ih =>
+    cases b with
+    | nil => simp [strLe] at h1
+    | cons y w =>
+      simp only [strLe] at h1 h2
+      by_cases l1 : x.toNat < y.toNat
+      · have : ¬ y.toNat < x.toNat := by omega
+        simp [this, l1] at h2
+      · by_cases l2 : y.toNat < x.toNat
+        · simp [l1, l2] at h1
+        · simp only [l1, l2, if_false] at h1 h2
+          have hxy : x = y := by
+            apply Char.ext; apply UInt32.toNat_inj.mp
+            show x.toNat = y.toNat; omega
+          rw [hxy, ih w h1 h2]
+
+theorem strLe_trans (a b c : Str) (h1 : strLe a b = true) (h2 : strLe b c = true) : strLe a c = true := by
+  induction a generalizing b c with
+  | nil => rfl
+  | cons x r ih =>
+    cases b with
+    | nil => simp [strLe] at h1
+    | cons y w =>
+      cases c with
+      | nil => simp [strLe] at h2
+      | cons z v =>
+        simp only [strLe] at h1 h2 ⊢
+        by_cases l1 : x.toNat < y.toNat
+        · by_cases m1 : y.toNat < z.toNat
+          · have : x.toNat < z.toNat := by omega
+            simp [this]
+          · by_cases m2 : z.toNat < y.toNat
+            · simp [m1, m2] at h2
+            · have : x.toNat < z.toNat := by omega
+              simp [this]
+        · by_cases l2 : y.toNat < x.toNat
+          · simp [l1, l2] at h1
+          · simp only [l1, l2, if_false] at h1
+            by_cases m1 : y.toNat < z.toNat
+            · have : x.toNat < z.toNat := by omega
+              simp [this]
+            · by_cases m2 : z.toNat < y.toNat
+              · simp [m1, m2] at h2
+              · simp only [m1, m2, if_false] at h2
+                have n1 : ¬ x.toNat < z.toNat := by omega
+                have n2 : ¬ z.toNat < x.toNat := by omega
+                simp only [n1, n2, if_false]
+                exact ih w v h1 h2
+
+theorem insertSorted_comm (x y : Str) (s : List Str) :
+    insertSorted x (insertSorted y s) = insertSorted y (insertSorted x s) := by
+  induction s with
+  | nil =>
+    simp only [insertSorted]
+    by_cases h1 : strLe x y = true <;> by_cases h2 : strLe y x = true
+    · rw [strLe_antisymm x y h1 h2]
+    · simp [h1, h2]
+    · simp [h1, h2]
+    · rcases strLe_total x y with h | h
+      · exact absurd h h1
+      · exact absurd h h2
+  | cons c r ih =>
+    by_cases hy : strLe y c = true <;> by_cases hx : strLe x c = true
+    · simp only [insertSorted, hy, hx, if_true]
+      by_cases h1 : strLe x y = true <;> by_cases h2 : strLe y x = true
+      · rw [strLe_antisymm x y h1 h2]
+      · simp [h1, h2, hx]
+      · simp [h1, h2, hy]
+      · rcases strLe_total x y with h | h
+        · exact absurd h h1
+        · exact absurd h h2
+    · have hxy : ¬ strLe x y = true := fun h => hx (strLe_trans x y c h hy)
+      simp [insertSorted, hy, hx, hxy]
+    · have hyx : ¬ strLe y x = true := fun h => hy (strLe_trans y x c h hx)
+      simp [insertSorted, hy, hx, hyx]
+    · simp [insertSorted, hy, hx, ih]
+
+/-- `sorted(s)` does not depend on the order in which the set `s` is iterated -/
+theorem sortStrs_perm {a b : List Str} (hp : a.Perm b) : sortStrs a = sortStrs b := by
+  induction hp with
+  | nil => rfl
+  | cons x _ ih => simp [sortStrs, ih]
+  | swap x y l => simp only [sortStrs]; exact insertSorted_comm y x (sortStrs l)
+  | trans _ _ ih1 ih2 => exact ih1.trans ih2
+
+theorem perm_insertSorted (a : Str) (l : List Str) : (insertSorted a l).Perm (a :: l) := by
+  induction l with
+  | nil => exact List.Perm.refl _
+  | cons c r ih =>
+    simp only [insertSorted]
+    split
+    · exact List.Perm.refl _
+    · exact (List.Perm.cons c ih).trans (List.Perm.swap a c r)
+
+theorem perm_sortStrs (l : List Str) : (sortStrs l).Perm l := by
+  induction l with
+  | nil => exact List.Perm.refl _
+  | cons a r ih => exact (perm_insertSorted a _).trans (List.Perm.cons a ih)
+
 end MakoModel.Paths8
